@@ -18,12 +18,15 @@ def schedules(depth, width=3, seed=0, extra=20, long_len=14):
         yield [rnd.randrange(width + 1) for _ in range(long_len)]
 
 
-def explore(make_sim, check, depth, width=3, seed=0, extra=20, limit=None, mode="all"):
-    """make_sim() -> Sim;  check(sim, trace) -> list of problems.  Returns a natives result dict."""
+def explore(make_sim, check, depth, width=3, seed=0, extra=20, limit=None, mode="all", warm=0):
+    """make_sim() -> Sim;  check(sim, trace) -> list of problems.  Returns a natives result dict.
+    warm: that many FIFO steps come before the enumerated choices (to reach a point deep in a run where several things are
+    outstanding at once and enumerate the interleavings from THERE)."""
     n = 0
     traces = set()
     samples = []
     for sch in schedules(depth, width, seed, extra):
+        sch = [0] * warm + sch
         sim = make_sim()
         trace = sim.run(sch, mode=mode)
         key = (mode,) + tuple(trace)
